@@ -15,7 +15,7 @@ from .core import fr, rat
 from .replay import Replayer, class_matches
 
 PAIRABLE = {"CvEval", "CvKnotInsert", "CvDegreeIncrease", "CvSplit", "CvKnotRemove", "CvDegreeDecrease", "CvClean",
-            "CvJoin", "CvCopy"}
+            "CvJoin", "CvCopy", "CvDerivate", "CvIntegrate"}
 
 
 def _key(t):
@@ -187,6 +187,50 @@ def _coord_curve(r, R, k):
     """coordinate k of a 2-D result curve as a scalar projection + evaluator"""
     proj = r.project2(R)[k]
     return {"U": proj["U"], "P": proj["P"], "W": proj["W"]}, (lambda u: R(u)[k])
+
+
+def vector_arith(records, lib, validator, on_fail, limit=300):
+    """A op B with A carrying 2-D points and B a scalar curve (op in mul, div; add / sub need equal shapes): coordinate k of
+    the result is judged by the clauses of the scalar scenario k.  Also B * A (scalar curve times 2-D curve)."""
+    r = VectorReplayer(lib, "fraction")
+    sr = Replayer(lib, "fraction")
+    groups, n = {}, 0
+    for t in records:
+        a = t["act"]
+        if a["name"] != "CvArith" or a["op"] not in ("mul", "div") or t.get("ovf") or t["ret"]["class"] != "ok":
+            continue
+        A = t["pre"][a["obj"]]
+        groups.setdefault(json.dumps([A["U"], A["W"], a["op"], a["other"]]), {}).setdefault(json.dumps(A["P"]), t)
+    strip = lambda o: {"U": o["U"], "P": o["P"], "W": o["W"]}
+    for g in groups.values():
+        ts = list(g.values())
+        if len(ts) < 2 or n >= limit:
+            continue
+        t1, t2 = ts[0], ts[1]
+        a = t1["act"]
+        A1, A2 = t1["pre"][a["obj"]], t2["pre"][a["obj"]]
+        forms = [("A op B", lambda A, B: A * B if a["op"] == "mul" else A / B)]
+        if a["op"] == "mul":
+            forms.append(("B * A", lambda A, B: B * A))
+        for what, fn in forms:
+            A = r.build2(A1, A2)
+            B = sr.curve_from(a["other"])
+            n += 1
+            try:
+                R = fn(A, B)
+            except Exception as e:
+                on_fail(t1, [f"{what} ({a['op']}) with 2-D points in A and a scalar curve B raised {type(e).__name__}: {e}"])
+                continue
+            for k, Ak in enumerate((A1, A2)):
+                try:
+                    d, ev = _coord_curve(r, R, k)
+                    dv = r.observed_values("CvArith", strip(Ak), strip(a["other"]), d, ev)
+                except Exception as e:
+                    on_fail(t1, [f"{what} with 2-D points: result cannot be read back exactly: {type(e).__name__}: {e}"])
+                    break
+                act = {k2: v for k2, v in a.items() if k2 not in ("obj", "other", "form")}
+                validator.add(act, c=strip(Ak), b=strip(a["other"]), d=d, cls="ok", tag=t1, dv=dv)
+    return n
 
 
 def vector_scalar_ops(records, lib, validator, on_fail, limit=300):
@@ -366,6 +410,26 @@ def compare_values(r, name, ts, val):
                     continue
                 if list(g) != list(w):
                     f.append(f"value at node {t['act']['nodes'][i]}, coordinate {k}: got {vals[i][k]}, spec {fr(w)}")
+    elif name == "CvDerivate":
+        D = val["D"]
+        for k, t in enumerate(ts):
+            for u, w in t["ret"]["val"]:
+                try:
+                    got = D(fr(u))
+                    g = float(got[k])
+                except Exception as e:
+                    return f + [f"derivative of a curve with 2-D points at {fr(u)}: {type(e).__name__}: {e}"]
+                if not abs(g - float(fr(w))) <= 1e-9 * max(1.0, abs(float(fr(w)))):
+                    f.append(f"derivative at {fr(u)}, coordinate {k}: got {g!r}, spec {float(fr(w))!r}")
+    elif name == "CvIntegrate":
+        for k, t in enumerate(ts):
+            try:
+                g = float(val["I"][k])
+            except Exception as e:
+                return f + [f"integral of a curve with 2-D points: {type(e).__name__}: {e}"]
+            w = float(fr(t["ret"]["val"]))
+            if not abs(g - w) <= 1e-9 * max(1.0, abs(w)):
+                f.append(f"integral, coordinate {k}: got {g!r}, spec {w!r}")
     elif name == "CvSplit":
         pieces = val["pieces"]
         for k, t in enumerate(ts):
